@@ -532,11 +532,12 @@ def run(ctx: Ctx) -> None:
                  D(["r1"], ["s1"], shms=["m1", "m2"], how="cover"), D(R3, ["s1"], ["s2"], how="cover")]
         n_random = 30
     else:
-        mcs = [("mc-design-3req-4srv", _consts(R3, ["s1", "s3"], ["s2"], (1, 2), ALLM, sym=True, shms=["m1"])),
+        mcs = [("mc-design-3req-3srv", _consts(R3, ["s1", "s3"], ["s2"], (1, 2), ALLM, sym=True)),
+               ("mc-design-3req-shm", _consts(R3, ["s1"], ["s2"], (1, 2), ALLM, sym=True, shms=["m1"])),
                ("mc-design-2req-shm", _consts(R2, ["s1"], [], (1, 2), ALLM, sym=True, shms=["m1", "m2"])),
                ("mc-variants", _consts(R3, ["s1"], ["s2"], (1, 2), ALLM, ["design"] + WRONG, sym=True))]
         dumps = [D(R2, maxreqs=(1, 2)), D(R2, ["s1"]), D(R3), D([], ["s1", "s3"], ["s2"]),
-                 D(["r1"], shms=["m1", "m2"]), D(["r1"], ["s1"], shms=["m1", "m2"]),
+                 D(["r1"], shms=["m1", "m2"]), D(["r1"], ["s1"], shms=["m1", "m2"], how="cover"),
                  D(R2, ["s1"], maxreqs=(2,), how="cover"), D(R2, ["s1"], ["s2"], how="cover"),
                  D(R2, ["s1"], shms=["m1", "m2"], how="cover"),
                  D(R3, ["s1"], ["s2"], maxreqs=(1, 2), how="cover"),
@@ -649,7 +650,7 @@ def run(ctx: Ctx) -> None:
             b_complete = False
         for scn in scns:
             outs, comp, nexec = explore(lambda p, scn=scn: run_real_schedule(scn, p),
-                                        limit=150 if quick else 1000, preemption_bound=scn["pb"])
+                                        limit=150 if quick else 400, preemption_bound=scn["pb"])
             b_complete = b_complete and comp
             na = 0
             cfg = {k: v for k, v in scn.items() if k != "pb"}
